@@ -762,9 +762,13 @@ build_case(Case& c, vh::Rng& rng, const std::string& outdir, int index, const st
       shared_ptr<ProjDataInfo> w = c.pdi->create_shared_clone(); // same edits, but the segment range is kept
       if (rng.coin() && p->get_max_segment_num() >= 1)
         {
-          int lo = rng.range(p->get_min_segment_num(), 0), hi = rng.range(0, p->get_max_segment_num());
-          if (lo == p->get_min_segment_num() && hi == p->get_max_segment_num())
-            --hi; // really narrower than the twin `w`
+          // really narrower than the twin `w`: at the lower end, at the upper end, or at both
+          const int mode = rng.range(0, 2);
+          int lo = p->get_min_segment_num(), hi = p->get_max_segment_num();
+          if (mode != 1 && lo < 0)
+            lo = rng.range(lo + 1, 0);
+          if (mode != 0 || lo == p->get_min_segment_num())
+            hi = rng.range(0, hi - 1);
           p->reduce_segment_range(lo, hi);
         }
       for (int s = p->get_min_segment_num(); s <= p->get_max_segment_num(); ++s)
@@ -1487,7 +1491,7 @@ run_ext_op(Case& c, vh::Rng& rng, int kind)
         return false;
       const std::vector<Key> bins = bins_fillpd(c);
       const std::vector<float> vals = random_values(rng, bins.size());
-      const bool wide = has_wider_segments(c) && rng.coin();
+      const bool wide = has_wider_segments(c) && rng.range(0, 3) != 0;
       const int sk = wide ? rng.range(0, 1) : 1;
       std::map<Key, float> m = to_map(bins, vals);
       if (wide) // the segments this object does not have hold other values
